@@ -146,6 +146,37 @@ pub fn translate(repo: &Path, out: &mut Out) {
                 out.miss("shared.rs: fn replace_layer_sboms");
             }
         }
+        // read_layer: the value returned is (layer directory, parsed content metadata); parsing is a parameter
+        let cfg3 = crate::imp::Config {
+            methods: vec![("as_ref", "{r}"), ("as_str", "{r}"), ("clone", "{r}"), ("join", "({r} ++ [{0}])"),
+                          ("exists", "(exists_ {r} st_)"), ("symlink_metadata", "(lstat {r} st_)"), ("is_err", "(res_is_err (snd {r}))")],
+            mutators: vec![],
+            state_calls: vec![],
+            calls: vec![("ReadLayer{}", "(layer_dir_path, layer_content_metadata)")],
+            variants: vec![],
+            eq: "beq",
+            take_default: "(@nil N)",
+            mcalls: vec![
+                ("fs::remove_file", "(unlink {0})"),
+                ("fs::write", "(write_file {0} (Raw {1}))"),
+                ("fs::read_to_string", "(read_string {0})"),
+                ("toml::from_str::<LayerContentMetadata<M>>", "(lift_parse parse {0})"),
+            ],
+            mmethods: vec![],
+            display: vec![],
+        };
+        if let Some(file) = parse_file(&repo.join("libcnb/src/layer/shared.rs")) {
+            if let Some(f) = find_free_fn(&file, "read_layer") {
+                let mut tr = crate::imp::Tr::new(&cfg3);
+                let term = tr.mst(&f.block.stmts, &mut vec![], &[], None);
+                for m in &tr.missing {
+                    out.miss(format!("shared.rs: read_layer: {m}"));
+                }
+                let _ = writeln!(g, "(* libcnb/src/layer/shared.rs: fn read_layer; the result is the layer directory and the parsed content metadata *)\nDefinition gen_read_layer {{A}} (parse : bytes -> option A) (layers_dir : path) (layer_name : bytes) : M (option (path * A)) :=\n{}.", crate::imp::indent(&term, 2));
+            } else {
+                out.miss("shared.rs: fn read_layer");
+            }
+        }
         out.coq("GenLayerSharedImp.v").push_str(&g);
     }
     // ---- shared.rs: delete_layer
